@@ -455,7 +455,7 @@ impl Property for C07 {
         ]
     }
     fn sweep_len(&self, _tier: Tier) -> usize {
-        4 + enum_registry().len()
+        5 + enum_registry().len()
     }
     fn sweep_description(&self) -> Option<String> {
         Some("descriptor agreement (.proto text vs Python serialized descriptors vs #[prost] attributes), harness registry completeness, every enum value, the bundled old artifact".into())
@@ -548,8 +548,55 @@ impl Property for C07 {
                 }
                 Ok(())
             }
+            4 => {
+                ctx.label("sweep=legacy-sample-set");
+                // a SampleSet as release 1.6 wrote it (field 4 = feasibility for the remaining constraints,
+                // deprecated field 6 = feasibility for all constraints, field 7 absent), produced by the
+                // independent encoder, must be read with that meaning: set-level accessors and extracted solutions
+                let mk_map = |v: &[(u64, bool)]| DV::Map(v.iter().map(|(k, b)| (DKey::U64(*k), DV::Bool(*b))).collect());
+                let remaining = [(1u64, true), (2, true), (3, false)];
+                let all = [(1u64, true), (2, false), (3, false)];
+                let mut entry = |value: f64, ids: &[u64]| {
+                    let mut e = DynMsg::new("ommx.v1.SampledValues.SampledValuesEntry");
+                    e.f.insert("value".into(), DV::F64(value.to_bits()));
+                    e.f.insert("ids".into(), DV::List(ids.iter().map(|i| DV::U64(*i)).collect()));
+                    DV::Msg(e)
+                };
+                let mut objectives = DynMsg::new("ommx.v1.SampledValues");
+                objectives.f.insert("entries".into(), DV::List(vec![entry(1.0, &[1]), entry(0.5, &[2]), entry(0.25, &[3])]));
+                let mut d = DynMsg::new("ommx.v1.SampleSet");
+                d.f.insert("objectives".into(), DV::Msg(objectives));
+                d.f.insert("feasible".into(), mk_map(&remaining));
+                d.f.insert("feasible_unrelaxed".into(), mk_map(&all));
+                d.f.insert("sense".into(), DV::Enum(1));
+                let bytes = encode(proto, &d, &EncLayout::default(), 0);
+                let ss = match v1::SampleSet::decode(bytes.as_slice()) {
+                    Ok(s) => s,
+                    Err(e) => return fail("C07/legacy-sample-set/decode", format!("1.6-layout SampleSet rejected: {e}")),
+                };
+                ctx.sample_with(|| json!({"sweep": "1.6-layout SampleSet", "bytes_hex": crate::tape::to_hex(&bytes)}));
+                for (id, fr) in remaining {
+                    let fa = all.iter().find(|x| x.0 == id).unwrap().1;
+                    if ss.feasible_relaxed().get(&id) != Some(&fr) || ss.feasible_unrelaxed().get(&id) != Some(&fa) {
+                        return fail("C07/legacy-sample-set/accessors", format!("1.6-layout SampleSet: sample {id} should read remaining={fr} all={fa}, accessors give {:?} / {:?}", ss.feasible_relaxed().get(&id), ss.feasible_unrelaxed().get(&id)));
+                    }
+                    match ss.get(id) {
+                        Ok(sol) => {
+                            if sol.feasible_relaxed != Some(fr) || sol.feasible != fa {
+                                return fail("C07/legacy-sample-set/extracted-solution", format!("1.6-layout SampleSet: sample {id} should read remaining={fr} all={fa}, the extracted solution says feasible_relaxed={:?} feasible={}", sol.feasible_relaxed, sol.feasible));
+                            }
+                        }
+                        Err(e) => return fail("C07/legacy-sample-set/get", format!("get({id}) failed on a 1.6-layout SampleSet: {e:#}")),
+                    }
+                }
+                // best feasible for all constraints is sample 1 (the only one), for the remaining ones sample 2 (0.5 < 1.0, minimise)
+                if ss.best_feasible_unrelaxed_id().ok() != Some(1) || ss.best_feasible_id().ok() != Some(2) {
+                    return fail("C07/legacy-sample-set/best", format!("1.6-layout SampleSet: best ids {:?} / {:?}, expected 2 / 1", ss.best_feasible_id().ok(), ss.best_feasible_unrelaxed_id().ok()));
+                }
+                Ok(())
+            }
             k => {
-                let (name, to_name, from_name) = enum_registry()[k - 4];
+                let (name, to_name, from_name) = enum_registry()[k - 5];
                 ctx.label(format!("sweep=enum:{name}"));
                 let Some(vals) = proto.enums.get(name) else {
                     return fail("C07/enum-missing-in-schema", format!("Rust enum {name} is not in the published schema"));
